@@ -25,7 +25,7 @@ pub fn def() -> PropDef {
 fn plan(tier: Tier) -> Vec<Unit> {
     match tier {
         Tier::Quick => crate::util::split_budget("roots", 240_000, 2_000),
-        Tier::Thorough => crate::util::split_budget("roots", 2_400_000, 5_000),
+        Tier::Thorough => crate::util::split_budget("roots", 24_000_000, 10_000),
         Tier::Miri => crate::util::split_budget("roots", 4, 2),
     }
 }
